@@ -2230,12 +2230,14 @@ class FilePool:
         try:
             yield f
         finally:
-            self._out.remove(f)
-            self._files.append(f)
-            if not self._out:
-                with self._cond:
-                    if self.writers and not self._out:
-                        self._cond.notify_all()
+            # Under the lock: a writer that sees _out empty must also see
+            # the file back in _files, or it empties the pool (pack,
+            # abort) and this handle, stale by then, is pooled afterwards.
+            with self._cond:
+                self._out.remove(f)
+                self._files.append(f)
+                if self.writers and not self._out:
+                    self._cond.notify_all()
 
     def empty(self):
         while self._files:
